@@ -30,17 +30,18 @@ func jobsFor(prop, tier string) []Job {
 var jobTables = map[string]func(tier string) []Job{}
 
 const fnRaycast = "(github.com/tidwall/geojson/geometry.Segment).Raycast"
+const fnEqZero = "github.com/tidwall/geojson/geometry.eqZero"
 const fnSegSeg = "(github.com/tidwall/geojson/geometry.Segment).IntersectsSegment"
 
 func kernelJobs() []Job {
 	var out []Job
-	for _, h := range []string{"H_K_Raycast", "H_K_RaycastReverse", "H_K_Strip", "H_K_Contains", "H_K_SegRect", "H_K_SpecSym"} {
-		out = append(out, Job{Pkg: "geometry", Harness: h, Timeout: 120, Scale: true, Unwind: 6})
+	for _, h := range []string{"H_K_EqZero", "H_K_Raycast", "H_K_RaycastReverse", "H_K_Strip", "H_K_Contains", "H_K_SegRect", "H_K_SpecSym"} {
+		out = append(out, Job{Pkg: "geometry", Harness: h, Timeout: 120, Scale: true, Unwind: 6, FineLattice: true})
 	}
 	// IntersectsSegment == spec over all reals: path-wise through the implementation, Raycast replaced by its
 	// contract (K1/K2 above); symmetry then follows from the symmetry of the spec (H_K_SpecSym).
-	out = append(out, Job{Pkg: "geometry", Harness: "H_K_SegSeg", Timeout: 240, Scale: true, Contracts: []string{fnRaycast}, ForkIn: []string{fnSegSeg}, Nlsat: true,
-		Note: "path-wise over IntersectsSegment, Raycast by contract"})
+	out = append(out, Job{Pkg: "geometry", Harness: "H_K_SegSeg", Timeout: 240, Scale: true, Contracts: []string{fnRaycast, fnEqZero}, ForkIn: []string{fnSegSeg}, Nlsat: true, FineLattice: true,
+		Note: "path-wise over IntersectsSegment, Raycast and the zero test by contract (K1/K2, K0)"})
 	// direct end-to-end searches with everything inlined, on the integer lattice only
 	out = append(out, Job{Pkg: "geometry", Harness: "H_K_SegSegSym", Timeout: 45, LatticeOnly: 8, NoCover: true, Note: "inlined, lattice [-8,8] only"})
 	return out
@@ -98,7 +99,7 @@ func init() {
 func raycastLemmaJobs() []Job {
 	var out []Job
 	for _, h := range []string{"H_K_Raycast", "H_K_CrossLemma"} {
-		out = append(out, Job{Pkg: "geometry", Harness: h, Timeout: 120, Scale: true, Unwind: 6, Note: "lemma relied on by contract-mode jobs"})
+		out = append(out, Job{Pkg: "geometry", Harness: h, Timeout: 120, Scale: true, Unwind: 6, FineLattice: true, Note: "lemma relied on by contract-mode jobs"})
 	}
 	return out
 }
@@ -377,7 +378,8 @@ func leafJobs(tier string, fn, allow int) []Job {
 
 func segLemmaJobs() []Job {
 	out := raycastLemmaJobs()
-	out = append(out, Job{Pkg: "geometry", Harness: "H_K_SegSeg", Timeout: 120, Scale: true, Contracts: []string{fnRaycast}, ForkIn: []string{fnSegSeg}, Combine: true, Nlsat: true, NoCover: true,
+	out = append(out, Job{Pkg: "geometry", Harness: "H_K_EqZero", Timeout: 60, Note: "lemma: the zero test is exact (contract of the path-wise IntersectsSegment job)"})
+	out = append(out, Job{Pkg: "geometry", Harness: "H_K_SegSeg", Timeout: 240, Scale: true, Contracts: []string{fnRaycast, fnEqZero}, ForkIn: []string{fnSegSeg}, Combine: true, Nlsat: true, NoCover: true, FineLattice: true,
 		Note: "lemma relied on by the IntersectsSegment contract: path-wise over IntersectsSegment (reachability of its paths is checked by C19's own run)"})
 	out = append(out, Job{Pkg: "geometry", Harness: "H_K_SpecSym", Timeout: 120, Scale: true, Note: "lemma: the segment-intersection spec is symmetric"})
 	out = append(out, Job{Pkg: "geometry", Harness: "H_K_SegSegBox", Timeout: 120, Scale: true, Note: "lemma instantiated where the implementation pre-filters by box"})
@@ -544,11 +546,11 @@ func init() {
 func init() {
 	propMeta["C09"] = PropMeta{
 		Bounds: map[string]interface{}{
-			"quick":    "all 144 ordered pairs of the twelve kinds on shapes of up to three positions with ALL real coordinates for the duality / wrapper-transparency clauses (Circle built with steps=3, its polygon coordinates being opaque trigonometric terms); all 121 ordered pairs of the eleven non-Circle kinds with one fixed small shape each and the second under ALL real translations for the semantic clauses (symmetry of intersects, contains => intersects and rectangle cover, intersects => rectangles intersect, self-containment, Rect == five-point polygon)",
+			"quick":    "all 144 ordered pairs of the twelve kinds on shapes of up to three positions with ALL real coordinates for the duality / wrapper-transparency clauses (Circle built with steps=3, its polygon coordinates being opaque trigonometric terms; and again with a CONCRETE circle at (10,20), radius 1000 m, whose polygon is computed by libm on constants, against every symbolic partner); all 121 ordered pairs of the eleven non-Circle kinds with one fixed small shape each and the second under ALL real translations for the semantic clauses (symmetry of intersects, contains => intersects and rectangle cover, intersects => rectangles intersect, self-containment, Rect == five-point polygon)",
 			"thorough": "same",
 		},
 		Outside:     []string{"Circle in the semantic clauses (C13: not applicable)", "larger shapes than three positions per object; collections of more than two children", "Rect transparency is checked for the fixed shapes under all translations, not for all rectangles"},
-		Stubs:       []string{"Segment.Raycast, Segment.IntersectsSegment -> specs (proved in-run)", "geo.* trigonometry: opaque finite values"},
+		Stubs:       []string{"Segment.Raycast, Segment.IntersectsSegment -> specs (proved in-run)", "geo.* trigonometry: opaque finite values for symbolic arguments; Go's own libm evaluated natively for concrete arguments"},
 		Assumptions: commonAssumptions,
 	}
 	jobTables["C09"] = func(tier string) []Job {
@@ -557,6 +559,11 @@ func init() {
 		for a := 0; a < 12; a++ {
 			for b := 0; b < 12; b++ {
 				out = append(out, Job{Pkg: "geojson", Harness: "H_Obj_Dual", Params: []int{a, b}, Timeout: 120, Scale: true, Contracts: c, NoCover: a+b > 0, Abstract: a == 5 || b == 5})
+				if (a == 5) != (b == 5) {
+					// the same pair with a concrete circle (its polygon computed by libm on constants): a mis-routed
+					// dispatch is then decided against a concrete polygon, with a replayable model
+					out = append(out, Job{Pkg: "geojson", Harness: "H_Obj_Dual", Params: []int{a, b, 1}, Timeout: 120, Contracts: c, NoCover: true, Abstract: true})
+				}
 			}
 		}
 		for a := 0; a < 12; a++ {
@@ -730,7 +737,7 @@ func matrixJobs(freeze int, full bool) []Job {
 func init() {
 	propMeta["C05"] = PropMeta{
 		Bounds: map[string]interface{}{
-			"quick":    "every query method (Empty, Valid, Rect, Center, NumPoints, Members, Spatial, ForEach, Contains, Within, Intersects, Distance, the Spatial sub-interface, JSON/String/AppendJSON for non-Multi kinds, Children/Indexed/Search for collections) on all ordered pairs of 24 constructor-built variants (12 kinds incl. degenerate ones: zero/one-point lines, zero-length segments, NewPolygon(nil), two-point polygon, zero-area rect, zero-radius circle, empty and nil-child collections, nested features, indexed polygon with hole / line / multipolygon, and two concrete concave (L-shaped) indexed polygons against the point / line / polygon / rect variants) with ALL real coordinates: no reachable panic (bounds, nil, type assertion) and every loop leaves within its unwinding bound (unwinding assertions); segment-index construction and search on concrete layouts of 40..300 points incl. ties and duplicates (real R-tree / quadtree constants); Line.ContainsLine on concrete lines x ALL symbolic lines",
+			"quick":    "every query method (Empty, Valid, Rect, Center, NumPoints, Members, Spatial, ForEach, Contains, Within, Intersects, Distance, the Spatial sub-interface, JSON/String/AppendJSON for non-Multi kinds, Children/Indexed/Search for collections; at the geometry level every predicate with nil *Line / *Poly receivers and arguments, and Poly.Move with holes / Rect rings) on all ordered pairs of 24 constructor-built variants (12 kinds incl. degenerate ones: zero/one-point lines, zero-length segments, NewPolygon(nil), two-point polygon, zero-area rect, zero-radius circle, empty and nil-child collections, nested features, indexed polygon with hole / line / multipolygon, and two concrete concave (L-shaped) indexed polygons against the point / line / polygon / rect variants) with ALL real coordinates: no reachable panic (bounds, nil, type assertion) and every loop leaves within its unwinding bound (unwinding assertions); segment-index construction and search on concrete layouts of 40..300 points incl. ties and duplicates (real R-tree / quadtree constants); Line.ContainsLine on concrete lines x ALL symbolic lines",
 			"thorough": "all 576 pairs (quick samples a third of the heaviest indexed/circle pairs)",
 		},
 		Outside:     []string{"Parse on arbitrary bytes and JSON of member text (gjson / pretty / sjson / strconv are not encoded)", "geo.* libm calls are assumed total", "polynomial running time is argued from the unwinding bounds, not measured", "objects larger than the listed variants"},
@@ -739,6 +746,7 @@ func init() {
 	}
 	jobTables["C05"] = func(tier string) []Job {
 		out := segLemmaJobs()
+		out = append(out, Job{Pkg: "geometry", Harness: "H_Nil", Timeout: 60, Contracts: []string{fnRaycast, fnSegSeg}, Note: "nil *Line / *Poly receivers and arguments of every geometry predicate; Poly.Move with holes and Rect rings"})
 		out = append(out, matrixJobs(0, tier == "thorough")...)
 		for _, t := range [][3]int{{0, 40, 1}, {1, 40, 1}, {3, 40, 1}, {3, 40, 2}, {0, 257, 2}, {3, 100, 1}} {
 			out = append(out, Job{Pkg: "geometry", Harness: "H_Search_Template", Params: []int{t[0], t[1], t[2]}, Timeout: 120, Unwind: 600, NoCover: true})
@@ -761,6 +769,8 @@ func init() {
 	}
 	jobTables["C16"] = func(tier string) []Job {
 		out := segLemmaJobs()
+		// the kernels the matrix replaces by contracts, themselves under the frame monitor
+		out = append(out, Job{Pkg: "geometry", Harness: "H_K_Frame", Timeout: 60, Unwind: 6, Note: "real Raycast / IntersectsSegment / ContainsSegment / CollinearPoint / Rect / Move with the frame monitor on"})
 		out = append(out, matrixJobs(1, tier == "thorough")...)
 		return out
 	}
